@@ -38,6 +38,9 @@ type FullCfg struct {
 	// AfterRun runs right after Session.Run returned.
 	AfterRun func(h *simplefixgo.DefaultHandler, s *session.Session)
 	OnLogon  func(*session.LogonSettings) error
+	// SharedOpts, when set, is the one session.Opts object handed to every session of the acceptor (the way the
+	// library's examples do it); otherwise every session gets an object of its own.
+	SharedOpts *session.Opts
 }
 
 // Link is one connection with its handler and session.
@@ -119,7 +122,11 @@ func StartFull(cfg FullCfg) (*Full, error) {
 			l := &Link{Conn: conn, H: dh, Peer: NewPeer()}
 			f.hookHandler(l)
 			cs, ms := f.stores()
-			s, err := session.NewAcceptorSession(Opts(), dh, &session.LogonSettings{
+			opts := cfg.SharedOpts
+			if opts == nil {
+				opts = Opts()
+			}
+			s, err := session.NewAcceptorSession(opts, dh, &session.LogonSettings{
 				LogonTimeout: logonTimeout(cfg), HeartBtLimits: cfg.Limits, CloseTimeout: cfg.CloseTimeout,
 			}, func(ls *session.LogonSettings) error { return cfg.OnLogon(ls) }, cs, ms)
 			if err != nil {
